@@ -182,7 +182,8 @@ def run_unit(u, repo, scratch, out_dir):
                                          r'possible division by zero|decreases not satisfied', h)]
     other = [h for h in hard if h not in verr and not h.startswith('aborting due to')]
     rlimit = [h for h in hard if 'rlimit' in h.lower() or 'resource limit' in h.lower()]
-    if js is None or (other and not vr) or rlimit:
+    total_verified = int(vr.get('verified', 0) or 0) if isinstance(vr, dict) else 0
+    if js is None or other or rlimit or (total_verified == 0 and not verr):
         reason = 'verus did not produce a verdict: ' + '; '.join((rlimit or other)[:3])[:300]
         return undecided_all(reason)
     # map each verification error to a function by line number
